@@ -99,13 +99,13 @@ def canonical(sc):
     sc["_clock"] = clocks
     return labels, ops
 
-def run(tier, seed):
-    cr = common.CheckResult(PROP)
-    scs = scenarios(tier)
+def build_jobs(tier, monitors=MONITORS, names=None, variants=None):
+    """(jobs, scenarios by job name, crash points per variant, scenarios) - also used by C03 for its drain clause after a recovery."""
+    scs = [s for s in scenarios(tier) if names is None or s["name"] in names]
     jobs = []
     by_name = {}
     npoints = {"between": 0, "inflight": 0, "midstep": 0, "double": 0, "downtime": 0, "slowboot": 0}
-    limits0 = {"max_states": 20000 if tier == "quick" else 200000, "max_depth": 400, "only": list(MONITORS)}
+    limits0 = {"max_states": 20000 if tier == "quick" else 200000, "max_depth": 400, "only": list(monitors)}
     for sc in scs:
         common.annotate(sc)
         labels, ops = canonical(sc)
@@ -151,6 +151,14 @@ def run(tier, seed):
                 lim = dict(limits0, preamble=labels[:k1] + [["crash", 1], ["restart", 1], ["crash", 1], ["restart", 1]])
                 jobs.append((s2, None, lim)); by_name[s2["name"]] = s2
                 npoints["double"] += 1
+    if variants is not None:
+        keep = [j for j in jobs if j[0]["family"].rsplit("/", 1)[-1] in variants]
+        jobs, by_name = keep, {j[0]["name"]: j[0] for j in keep}
+    return jobs, by_name, npoints, scs
+
+def run(tier, seed):
+    cr = common.CheckResult(PROP)
+    jobs, by_name, npoints, scs = build_jobs(tier)
     outs = common.explore_many("checks.monsets", "crash", jobs, seed)
     tot, samples = common.collect(cr, outs, by_name, lambda v: v["monitor"] in MONITORS, "crash")
     cr.level = "model_checking"
